@@ -26,6 +26,7 @@ Res(op, a, c) ==
     [] op = "Apply" -> [added |-> Sorted(SeqSet(a.add) \ c), deleted |-> Sorted(SeqSet(a.del) \cap (c \cup SeqSet(a.add)))]
     [] op = "Toggle" -> IF a \in c THEN [added |-> <<>>, deleted |-> <<a>>] ELSE [added |-> <<a>>, deleted |-> <<>>]   \* Compute(toggle a)
     [] op = "Replace" -> Sorted(c \ SeqSet(a))
+    [] op = "ReplaceSelf" -> <<>>        \* Replace(a read-only view of the set itself): nothing is removed, the contents stay
 Eff(op, a, c) ==
   CASE op = "Add" -> c \cup {a}
     [] op = "Delete" -> c \ {a}
@@ -33,6 +34,7 @@ Eff(op, a, c) ==
     [] op = "Apply" -> (c \cup SeqSet(a.add)) \ SeqSet(a.del)
     [] op = "Toggle" -> IF a \in c THEN c \ {a} ELSE c \cup {a}
     [] op = "Replace" -> SeqSet(a)
+    [] op = "ReplaceSelf" -> c
 
 Init == l = 1 /\ contents = {} /\ pend = [t \in Threads |-> Idle] /\ TLCSet(1, 1)
 
@@ -52,10 +54,11 @@ Consume ==
 (* each other and to Add/Delete/Compute), but they change the map element by element, and the lock-free readers      *)
 (* (Has, Size) may observe the intermediate contents - the property does not promise atomicity towards readers.      *)
 Writing == \E u \in Threads : pend[u].st = "w"
-Micro(op, a) == IF op = "Apply" THEN [i \in 1..Len(a.add) |-> <<"add", a.add[i]>>] \o [i \in 1..Len(a.del) |-> <<"del", a.del[i]>>]
-                ELSE <<<<"clear", 0>>>> \o [i \in 1..Len(a) |-> <<"add", a[i]>>]
-WBegin(t) == /\ pend[t].st = "inv" /\ pend[t].op \in {"Apply", "Replace"} /\ ~Writing
-             /\ pend' = [pend EXCEPT ![t] = [st |-> "w", res |-> Res(pend[t].op, pend[t].a, contents), todo |-> Micro(pend[t].op, pend[t].a)]]
+Micro(op, a, c) == IF op = "Apply" THEN [i \in 1..Len(a.add) |-> <<"add", a.add[i]>>] \o [i \in 1..Len(a.del) |-> <<"del", a.del[i]>>]
+                   ELSE LET new == IF op = "ReplaceSelf" THEN Sorted(c) ELSE a      \* (the view is read under the write lock: what the set holds then)
+                        IN  <<<<"clear", 0>>>> \o [i \in 1..Len(new) |-> <<"add", new[i]>>]
+WBegin(t) == /\ pend[t].st = "inv" /\ pend[t].op \in {"Apply", "Replace", "ReplaceSelf"} /\ ~Writing
+             /\ pend' = [pend EXCEPT ![t] = [st |-> "w", res |-> Res(pend[t].op, pend[t].a, contents), todo |-> Micro(pend[t].op, pend[t].a, contents)]]
              /\ UNCHANGED <<l, contents>>
 WStep(t) == /\ pend[t].st = "w" /\ pend[t].todo # <<>>
             /\ LET m == Head(pend[t].todo) IN
@@ -63,7 +66,7 @@ WStep(t) == /\ pend[t].st = "w" /\ pend[t].todo # <<>>
             /\ pend' = [pend EXCEPT ![t].todo = Tail(@)] /\ UNCHANGED l
 WEnd(t) == /\ pend[t].st = "w" /\ pend[t].todo = <<>>
            /\ pend' = [pend EXCEPT ![t] = [st |-> "lin", res |-> pend[t].res]] /\ UNCHANGED <<l, contents>>
-Lin(t) == /\ pend[t].st = "inv" /\ pend[t].op \notin {"Apply", "Replace"}
+Lin(t) == /\ pend[t].st = "inv" /\ pend[t].op \notin {"Apply", "Replace", "ReplaceSelf"}
           /\ (pend[t].op \in {"Add", "Delete", "Toggle"} => ~Writing)
           /\ pend' = [pend EXCEPT ![t] = [st |-> "lin", res |-> Res(pend[t].op, pend[t].a, contents)]]
           /\ contents' = Eff(pend[t].op, pend[t].a, contents) /\ UNCHANGED l
